@@ -29,7 +29,8 @@ CHECKS["C01"] = dict(
           "symmetric, constant-annihilating, PSD for weights >= 0, weights from aniso >= 0 lie in (0,1], element blocks equal the isotropic "
           "ones for weights (1,1) and never exceed them for weights in [0,1] given an orthonormal in-plane frame; on non-degenerate "
           "meshes the form f.A.g is unchanged by any reordering of the triangles and by any of the six orders of the three indices of "
-          "each triangle (cyclic rotation, flip). Invariance of the tetra matrix under index order, relabelling and float32 agreement "
+          "each triangle (cyclic rotation, flip), and likewise for tetrahedra: any reordering of the elements and any of the 24 orders of the "
+          "four indices of each tetrahedron (FemTetInvarP). Relabelling of the vertices and float32 agreement "
           "are covered by correspondence + oracle only (partial)."),
     design="6/C01", technique="Coq proof (ring/field identities + list-induction assembly lemmas) + vm_compute correspondence at binary64")
 CHECKS["C02"] = dict(
